@@ -154,13 +154,16 @@ func c05Gen(c *Ctx) {
 		r := t.R
 		units := trieUnits
 		fam := "random-units"
-		switch r.Intn(4) {
+		switch r.Intn(5) {
 		case 0:
 			units = trieASCII
 			fam = "random-abc"
 		case 1:
 			units = trieRaw
 			fam = "random-raw"
+		case 2:
+			units = trieBoundary
+			fam = "random-boundary-runes"
 		}
 		ps := randPatternSet(r, units, 8, 5)
 		var text string
